@@ -260,6 +260,34 @@ def p_is0(x):
     return fz.eq(zr(x), fz.ZERO)
 
 
+def _dag_size(t, limit):
+    seen = set()
+    stack = [t]
+    while stack:
+        x = stack.pop()
+        k = x.get_id()
+        if k in seen:
+            continue
+        seen.add(k)
+        if len(seen) > limit:
+            return limit + 1
+        stack.extend(x.children())
+    return len(seen)
+
+
+def p_is0_poly(x):
+    """like p_is0, but first lets z3 expand small polynomials to sum-of-monomials: a polynomial identity
+    (impl and oracle algebraically equal) is then decided without the non-linear solver"""
+    if isc(x):
+        return x == 0
+    zx = zr(x)
+    if _dag_size(zx, 600) <= 600:
+        e = z3.simplify(zx, som=True)
+        if z3.is_rational_value(e) or z3.is_int_value(e):
+            return e.numerator_as_long() == 0 if z3.is_rational_value(e) else e.as_long() == 0
+    return fz.eq(zx, fz.ZERO)
+
+
 def p_lt0(x):
     if isc(x):
         return x < 0
@@ -748,8 +776,8 @@ class Q:
             return True
         if a.rn is None and b.rn is None:
             if peq(a.d, b.d):
-                return p_is0(psub(a.n, b.n))
-            return p_is0(psub(pmul(a.n, b.d), pmul(b.n, a.d)))
+                return p_is0_poly(psub(a.n, b.n))
+            return p_is0_poly(psub(pmul(a.n, b.d), pmul(b.n, a.d)))
         # radicals: equal iff both zero, or same sign and equal squares
         za, zb = a._finzero(), b._finzero()
         same_sign = bor(band(a._qpos(), b._qpos()), band(a._qneg(), b._qneg()))
@@ -774,7 +802,7 @@ class Q:
             l, r = pmul(an, bd), pmul(bn, ad)
         diff = psub(l, r)
         if op == "eq":
-            return p_is0(diff)
+            return p_is0_poly(diff)
         if op == "lt":
             return p_lt0(diff)
         raise AssertionError(op)
@@ -919,9 +947,16 @@ class Q:
         return r
 
     def nan_to(self, repl):
-        """value with NaN replaced by `repl` (np.nan_to_num / nansum building block)"""
-        if isb(self.nan):
-            return Q.lift(repl) if self.nan else self
+        """value with NaN replaced by `repl` (np.nan_to_num / nansum building block).
+        A NaN flag that is not decided on the current path FORKS the path (both sides stay polynomial)
+        instead of putting an if-then-else into the term."""
+        nan = static(self.nan)
+        if not isb(nan):
+            nan = HOOKS.branch(nan) if HOOKS.branch is not None else nan
+        if isb(nan):
+            if nan:
+                return Q.lift(repl)
+            return Q(self.n, self.d, self.rn, self.rd, False, self.inf, self.sg)
         return Q.ite(self.nan, repl, Q(self.n, self.d, self.rn, self.rd, False, self.inf, self.sg))
 
     # ---- numpy protocol for 0-d use: np.sqrt(q), np.isnan(q), ndarray * q ----
